@@ -208,8 +208,11 @@ func (n *ResponderInterceptor) resendPackets(nack *rtcp.TransportLayerNack) {
 			stream.rtpBufferMutex.Unlock()
 
 			if p != nil {
-				// send without holding rtpBufferMutex
-				if _, err := stream.rtpWriter.Write(p.Header(), p.Payload(), interceptor.Attributes{}); err != nil {
+				// send without holding rtpBufferMutex; every retransmission gets its own copy of the header,
+				// because the writers below may edit it (e.g. stamp a header extension) and the same stored
+				// packet can be resent by several goroutines at once
+				header := p.Header().Clone()
+				if _, err := stream.rtpWriter.Write(&header, p.Payload(), interceptor.Attributes{}); err != nil {
 					n.log.Warnf("failed resending nacked packet: %+v", err)
 				}
 				p.Release()
